@@ -21,7 +21,7 @@ def _reexec_if_needed(check_id):
     if env.get('PYTHONHASHSEED') is None:
         env['PYTHONHASHSEED'] = '0'
         need = True
-    if check_id == 'C11' and 'libasan' not in env.get('LD_PRELOAD', ''):
+    if check_id == 'C11' and ('libasan' not in env.get('LD_PRELOAD', '') or env.get('PYTHONMALLOC') != 'malloc'):
         sys.path.insert(0, VERIF)
         from sim import build
         env = build.asan_env(env)
